@@ -308,6 +308,11 @@ class UnaryExpression(MathExpression):
         else:
             return self.set_right(child)  # type:ignore
 
+    def clone(self) -> "UnaryExpression":  # type:ignore[override]
+        result = cast(UnaryExpression, super().clone())
+        result.child_on_left = self.child_on_left
+        return result
+
     def get_child(self) -> Optional[MathExpression]:
         if self.child_on_left:
             return self.left
